@@ -94,15 +94,31 @@ static lzma_ret dec_init(lzma_stream *s, int kind, uint64_t limit, lzma_mt *mt, 
 
 // raise: 0 = to exactly what lzma_memusage() reports, 1 = to a given value
 static void run_limited(int kind, const Bytes &file, uint64_t limit, uint64_t threading_limit, uint32_t threads, uint32_t timeout,
-		size_t in_each, size_t out_each, uint64_t raise_to, DecRun &r, Verdict &v)
+		size_t in_each, size_t out_each, uint64_t raise_to, DecRun &r, Verdict &v, const Bytes *prefile = nullptr)
 {
 	SimAlloc al;
 	Session ss(&al.a);
-	ss.set_input(&file);
 	lzma_mt mt; memset(&mt, 0, sizeof mt);
 	mt.threads = threads; mt.timeout = timeout; mt.flags = LZMA_CONCATENATED;
 	mt.memlimit_stop = limit; mt.memlimit_threading = threading_limit;
+	if (prefile) {
+		// the handle has decoded another file (bigger dictionary, no limit) before and was not ended:
+		// what that use allocated must not stay behind the new, smaller limit
+		lzma_mt m0 = mt; m0.memlimit_stop = UINT64_MAX; m0.memlimit_threading = UINT64_MAX; m0.timeout = 0;
+		if (dec_init(&ss.s, kind, UINT64_MAX, &m0, LZMA_CONCATENATED) == LZMA_OK) {
+			ss.set_input(prefile);
+			for (int g = 0; g < 100000; ++g) { lzma_ret pr = ss.step(ss.in_left(), 1 << 16, LZMA_FINISH); if (pr != LZMA_OK && !is_notice(pr)) break; }
+			ss.out.clear();
+			v.count("reach.limited_decoder_on_a_reused_handle");
+		}
+	}
+	ss.set_input(&file);
 	lzma_ret rr = dec_init(&ss.s, kind, limit, &mt, LZMA_CONCATENATED);
+	// liblzma keeps the buffers of a coder it can reuse until the new coder sets up its own (first
+	// header decoded): what the earlier use left is not "allocated by the limited decoder". From the
+	// first output byte on, everything held is the new decoder's.
+	bool started = prefile == nullptr;
+	al.peak = al.cur;
 	if (rr != LZMA_OK) { r.status = rr; r.error = fmt("init returned %s", ret_name(rr)); r.cls = "init"; ss.end(); return; }
 	uint64_t cur_limit = limit;
 	uint64_t A = allowance(kind == DK_MT ? threads : 1);
@@ -113,9 +129,15 @@ static void run_limited(int kind, const Bytes &file, uint64_t limit, uint64_t th
 		lzma_action act = LZMA_RUN;
 		if (finishing || ss.in_left() <= in_n) { act = LZMA_FINISH; in_n = ss.in_left(); finishing = true; sim_fair_phase(); }
 		rr = ss.step(in_n, out_each, act);
-		if (al.cur > cur_limit && al.cur - cur_limit > A && r.error.empty() && cur_limit != UINT64_MAX) {
+		if (!started && !ss.out.empty()) { started = true; al.peak = al.cur; }
+		if (started && al.cur > cur_limit && al.cur - cur_limit > A && r.error.empty() && cur_limit != UINT64_MAX) {
 			r.error = fmt("%llu bytes allocated with a limit of %llu (allowance %llu)", (unsigned long long)al.cur, (unsigned long long)cur_limit, (unsigned long long)A);
 			r.cls = "limit-exceeded";
+		}
+		// what the query function reports is never less than what is really held (single-threaded decoders)
+		if (kind != DK_MT && started && r.error.empty()) {
+			uint64_t mu = lzma_memusage(&ss.s);
+			if (mu != 0 && al.cur > mu + A) { r.error = fmt("%llu bytes are allocated while lzma_memusage() reports %llu", (unsigned long long)al.cur, (unsigned long long)mu); r.cls = "memusage-below-allocation"; }
 		}
 		if (rr == LZMA_MEMLIMIT_ERROR) {
 			++r.memlimit_errors;
@@ -123,7 +145,7 @@ static void run_limited(int kind, const Bytes &file, uint64_t limit, uint64_t th
 			uint64_t need = lzma_memusage(&ss.s);
 			uint64_t lim = lzma_memlimit_get(&ss.s);
 			if (lim != cur_limit && r.error.empty()) { r.error = fmt("lzma_memlimit_get reports %llu, limit is %llu", (unsigned long long)lim, (unsigned long long)cur_limit); r.cls = "memlimit-get"; }
-			if (al.peak > cur_limit + A && r.error.empty()) { r.error = fmt("peak %llu before LZMA_MEMLIMIT_ERROR with a limit of %llu", (unsigned long long)al.peak, (unsigned long long)cur_limit); r.cls = "limit-exceeded"; }
+			if (started && al.peak > cur_limit + A && r.error.empty()) { r.error = fmt("peak %llu before LZMA_MEMLIMIT_ERROR with a limit of %llu", (unsigned long long)al.peak, (unsigned long long)cur_limit); r.cls = "limit-exceeded"; }
 			uint64_t newlim = raise_to ? raise_to : need;
 			if (kind != DK_MT && need <= cur_limit && r.error.empty()) { r.error = fmt("LZMA_MEMLIMIT_ERROR although lzma_memusage() = %llu <= limit %llu", (unsigned long long)need, (unsigned long long)cur_limit); r.cls = "memusage-report"; }
 			if (newlim <= cur_limit) newlim = cur_limit + 1;
@@ -138,7 +160,7 @@ static void run_limited(int kind, const Bytes &file, uint64_t limit, uint64_t th
 		if (++guard > 400000) { r.error = "no termination"; r.cls = "liveness-calls"; break; }
 	}
 	r.status = rr;
-	r.peak = al.peak;
+	r.peak = started ? al.peak : 0;
 	r.final_limit = cur_limit;
 	r.reported_at_end = lzma_memusage(&ss.s);
 	r.out.swap(ss.out);
@@ -169,6 +191,7 @@ static void dec_gen(Rng &rng, Plan &plan, bool thorough)
 	plan.setp("threading_mode", (int64_t)rng.below(4));   // MT: 0 = 1 byte, 1 = need_st, 2 = 3*need_st, 3 = unlimited
 	plan.setp("in_each", (int64_t)(1 + rng.size_skewed(30000)));
 	plan.setp("out_each", (int64_t)(1 + rng.size_skewed(30000)));
+	plan.setp("reused_handle", rng.chance(300) ? 1 : 0);
 	if (plan.p("kind") == DK_MT && rng.chance(450)) {
 		// Blocks big enough that one output buffer too many is visible beyond the allowance; equal-sized
 		// neighbours with different declared dictionaries (threaded Block followed by a direct-mode Block)
@@ -205,6 +228,16 @@ static void dec_exec(const Plan &plan, Verdict &v)
 		}
 	} else {
 		if (!xz_with_declared_dicts(plain, dicts, (lzma_check)plan.p("check", LZMA_CHECK_CRC32), plan.p("delta", 0) != 0, file, err)) { v.fail("harness", "harness/artefact", err); return; }
+	}
+	Bytes prefile;
+	if (plan.p("reused_handle", 0)) {
+		Bytes small(plain.begin(), plain.begin() + (long)std::min<size_t>(plain.size(), 2000));
+		std::string e2;
+		if (kind == DK_ALONE || kind == DK_AUTO_LZMA) {
+			lzma_options_lzma lz; lzma_lzma_preset(&lz, 0); lz.dict_size = 4096;
+			if (lzma_build(small, &lz, prefile, e2)) { uint32_t d = 1u << 24; for (int i = 0; i < 4; ++i) prefile[1 + (size_t)i] = (uint8_t)(d >> (8 * i)); }
+		} else if (kind == DK_LZIP) lz_build_member(small, 1, 0x18, prefile, e2);
+		else xz_with_declared_dicts(small, std::vector<uint32_t>{ 1u << 24 }, LZMA_CHECK_CRC32, false, prefile, e2);
 	}
 	uint32_t threads = (uint32_t)plan.p("threads", 2), timeout = (uint32_t)plan.p("timeout", 0);
 	size_t in_each = (size_t)plan.p("in_each", 4096), out_each = (size_t)plan.p("out_each", 4096);
@@ -252,9 +285,9 @@ static void dec_exec(const Plan &plan, Verdict &v)
 		}
 		// the hard limit is raised to what the single-threaded decoder says
 		// it needs (a single thread can always work within that)
-		run_limited(kind, file, L, threading, threads, timeout, in_each, out_each, need, lim, v);
+		run_limited(kind, file, L, threading, threads, timeout, in_each, out_each, need, lim, v, prefile.empty() ? nullptr : &prefile);
 	} else {
-		run_limited(kind, file, L, UINT64_MAX, 1, 0, in_each, out_each, 0, lim, v);
+		run_limited(kind, file, L, UINT64_MAX, 1, 0, in_each, out_each, 0, lim, v, prefile.empty() ? nullptr : &prefile);
 	}
 	std::string ctx = fmt(" [%s, need %llu, limit %llu, threading limit %llu, threads %u, %d blocks]", dk_names[kind], (unsigned long long)need, (unsigned long long)L, (unsigned long long)threading, threads, nb);
 	if (!lim.error.empty()) { v.fail(lim.cls, "C09/" + lim.cls, lim.error + ctx); return; }
